@@ -281,3 +281,56 @@ Proof.
       * rewrite <- Eq. now apply IH.
       * now apply nth_error_set_nth.
 Qed.
+
+(* ------------------------------------------------------------------ insert shifts, at any depth:
+   "path[i+]..." puts a new element at i of a list anywhere in the tree; what was readable below a
+   subscript i' of that list is readable, unchanged, below i' (when i' < i) or i' + 1 (otherwise) *)
+Lemma insert_shift_path {A} : forall p, Forall plain_step p -> forall i i' es' (fin : node -> node * A) n v,
+  (0 <= i)%Z ->
+  descend_get (p ++ E_LIST_ELEMENT i' :: es') n = inr v ->
+  descend_get (p ++ E_LIST_ELEMENT (if (i' <? i)%Z then i' else i' + 1) :: es')
+              (fst (descend_set (p ++ [E_LIST_INSERT i]) fin n)) = inr v.
+Proof.
+  induction p as [|e p IH]; intros Hp i i' es' fin n v Hi Hg.
+  - cbn [app] in *.
+    destruct (get_list_element_inv _ _ _ _ Hg) as (vec & al & c & -> & H0 & N & Hc).
+    assert (Hlt : (Z.to_nat i' < length vec)%nat) by (apply nth_error_Some; congruence).
+    cbn [descend_set list_parts]. unfold list_insert, list_extend.
+    replace (i <? 0)%Z with false by (symmetry; apply Z.ltb_ge; lia).
+    destruct (i <? Z.of_nat (length vec))%Z eqn:F1.
+    + apply Z.ltb_lt in F1. destruct (fin _) as [c' a]. cbn [fst].
+      rewrite (get_list_element_intro _ es' _ _ c); [exact Hc|destruct (i' <? i)%Z; lia|].
+      destruct (i' <? i)%Z eqn:E; [apply Z.ltb_lt in E|apply Z.ltb_ge in E].
+      * rewrite nth_error_set_nth_other by lia. rewrite nth_error_insert_nth by lia.
+        replace (Nat.ltb (Z.to_nat i') (Z.to_nat i)) with true by (symmetry; apply Nat.ltb_lt; lia). exact N.
+      * rewrite nth_error_set_nth_other by lia. rewrite nth_error_insert_nth by lia.
+        replace (Nat.ltb (Z.to_nat (i' + 1)) (Z.to_nat i)) with false by (symmetry; apply Nat.ltb_ge; lia).
+        replace (Nat.eqb (Z.to_nat (i' + 1)) (Z.to_nat i)) with false by (symmetry; apply Nat.eqb_neq; lia).
+        replace (pred (Z.to_nat (i' + 1))) with (Z.to_nat i') by lia. exact N.
+    + apply Z.ltb_ge in F1.
+      replace (i' <? i)%Z with true by (symmetry; apply Z.ltb_lt; lia).
+      destruct (i =? INT_MAX)%Z.
+      * cbn [fst]. rewrite (get_list_element_intro _ es' _ _ c H0 N). exact Hc.
+      * destruct (fin _) as [c' a]. cbn [fst].
+        rewrite (get_list_element_intro _ es' _ _ c H0); [exact Hc|].
+        rewrite nth_error_set_nth_other by lia. now apply nth_error_app_old.
+  - inversion Hp as [|? ? He Hp']; subst.
+    rewrite <- !app_comm_cons in *.
+    destruct e; simpl in He; try contradiction.
+    + cbn [descend_get] in Hg. destruct n as [| | kv | ]; try discriminate.
+      destruct (lookup k kv) as [c|] eqn:L; [|discriminate].
+      cbn [descend_set map_entries]. rewrite L.
+      specialize (IH Hp' i i' es' fin c v Hi Hg).
+      destruct (descend_set (p ++ [E_LIST_INSERT i]) fin c) as [c' r]. cbn [fst descend_get] in *.
+      rewrite (lookup_update_same _ _ _ _ L). exact IH.
+    + destruct (get_list_element_inv _ _ _ _ Hg) as (vec & al & c & -> & H0 & N & Hc).
+      assert (Hlt : (Z.to_nat i0 < length vec)%nat) by (apply nth_error_Some; congruence).
+      cbn [descend_set list_parts]. unfold list_extend.
+      replace (i0 <? 0)%Z with false by (symmetry; apply Z.ltb_ge; lia).
+      replace (i0 <? Z.of_nat (length vec))%Z with true by (symmetry; apply Z.ltb_lt; lia).
+      rewrite (nth_nth_error _ _ NNull _ N).
+      specialize (IH Hp' i i' es' fin c v Hi Hc).
+      destruct (descend_set (p ++ [E_LIST_INSERT i]) fin c) as [c' r]. cbn [fst] in *.
+      rewrite (get_list_element_intro i0 _ _ al c' H0); [exact IH|].
+      now apply nth_error_set_nth.
+Qed.
